@@ -169,6 +169,51 @@ fn make_pool(rng: &mut Rng, ctx: &mut Ctx) -> (Vec<Entry>, Vec<Retry>) {
             }
         }
     }
+    // (k) a target for every body length 10..=420 bytes that ends inside a byte (1059 with all biases at -0.01 =
+    // all-ones codes), and descriptor messages with every string at capacity and all-ones characters as
+    // predecessors: what one build leaves behind in the bytes just past another's end
+    {
+        use rtcm_rs::msg::{GpsSigId, Msg1059CodeBias, Msg1059T};
+        let table = &crate::oracle::sig::SSR_GPS;
+        for want in 10..=420usize {
+            // bits = 67 + 11 * nsat + 19 * n
+            let mut found = None;
+            'f: for nsat in 1..=40usize {
+                for n in nsat..=(12 * nsat).min(390) {
+                    let bits_ = 67 + 11 * nsat + 19 * n;
+                    if (bits_ + 7) / 8 == want && bits_ % 8 != 0 {
+                        found = Some((nsat, n));
+                        break 'f;
+                    }
+                }
+            }
+            if let Some((nsat, n)) = found {
+                let mut t = Msg1059T::default();
+                let mut left = n;
+                for s_ in 0..nsat {
+                    let rem = nsat - s_;
+                    let k = ((left + rem - 1) / rem).min(12).max(1).min(left - (rem - 1));
+                    for j in 0..k {
+                        t.biases.push(Msg1059CodeBias { satellite_id: s_ as u8, signal_id: GpsSigId::new(table[j].1, table[j].2), bias_m: -0.01 });
+                    }
+                    left -= k;
+                }
+                add(&mut pool, Message::Msg1059(t), "pool_target_ladder_1059", ctx);
+            }
+        }
+        for n in [1007u16, 1008, 1033] {
+            for fill in [0xFFu8, 0x7F, b'U'] {
+                for len in [31usize, 30] {
+                    let text = vec![fill; len];
+                    if let Ok(Some(m)) = crate::codec::decode(&gen::descriptor_frame(n, &text)) {
+                        if m.number() == Some(n) {
+                            add(&mut pool, m, "pool_descriptors_at_capacity", ctx);
+                        }
+                    }
+                }
+            }
+        }
+    }
     // (i) correct-and-retry triples
     let typed: Vec<usize> = (0..pool.len()).filter(|&i| pool[i].label == "pool_valid_typed" && pool[i].fresh.is_ok()).collect();
     for &a in typed.iter() {
@@ -465,6 +510,18 @@ pub fn run(p: &Params) -> Outcome {
                 run_history(ctx, &pool, &[l2], t);
             }
         }
+        // every length of the target ladder after the predecessors that are special to one message type (strings and
+        // lists at capacity, the longest bias lists), sharded by target
+        let special: Vec<usize> = (0..pool.len()).filter(|&i| matches!(pool[i].label, "pool_descriptors_at_capacity" | "pool_list_at_capacity" | "pool_near_maximal_1059") && pool[i].fresh.is_ok()).collect();
+        for (ti, t) in (0..pool.len()).filter(|&i| pool[i].label == "pool_target_ladder_1059").enumerate() {
+            if ti % _nw != w {
+                continue;
+            }
+            for &sp in special.iter() {
+                ctx.count("target_ladder_histories");
+                run_history(ctx, &pool, &[sp], t);
+            }
+        }
         for target in (0..pool.len()).filter(|t| t % _nw == w) {
             if ctx.saturated() {
                 break;
@@ -513,7 +570,7 @@ pub fn run(p: &Params) -> Outcome {
     });
     total.max("calls_on_the_longest_lived_builder", 0.0);
     total.max("length_ladder_entries", 0.0);
-    for k in ["near_maximal_target_after_capacity_list", "correct_and_retry_histories", "pool_list_at_capacity", "ladder_histories", "failure_then_target_histories", "pool_late_failing_biased_field", "pool_decoded_from_all_ones_max_payload", "histories_where_stale_bits_would_be_visible", "histories_with_failed_predecessor", "pool_entries_that_fail_to_build"] {
+    for k in ["target_ladder_histories", "pool_descriptors_at_capacity", "near_maximal_target_after_capacity_list", "correct_and_retry_histories", "pool_list_at_capacity", "ladder_histories", "failure_then_target_histories", "pool_late_failing_biased_field", "pool_decoded_from_all_ones_max_payload", "histories_where_stale_bits_would_be_visible", "histories_with_failed_predecessor", "pool_entries_that_fail_to_build"] {
         if total.get(k) == 0 {
             total.inconclusive(format!("{} never observed", k));
         }
